@@ -55,6 +55,12 @@ def handleC03 : List String → String
     let fl := (List.range as.length).filter (fun i => flagged.contains i)
     if fl.isEmpty && missing.isEmpty then "accepted"
     else s!"flag {if fl.isEmpty then "-" else ",".intercalate (fl.map toString)} missing {if missing.isEmpty then "-" else ",".intercalate missing}"
+  | ["defaults", _kind, params, _truth] =>
+    let ps : List (String × String × Option String) := (params.splitOn ";").map fun p => match p.splitOn ":" with
+      | [n, t, d] => (n, t, if d == "-" then none else some d)
+      | _ => ("?", "?", none)
+    let errs := defaultErrors (· == ·) ps
+    if errs.isEmpty then "accepted" else s!"flag {",".intercalate (errs.map toString)}"
   | ["adopt", _kind, requires, tmethods, fields, ameths, _truth] =>
     let pairs (x : String) : List (String × String) := if x == "-" then [] else (x.splitOn ",").map fun e =>
       match e.splitOn ":" with
